@@ -15,11 +15,16 @@ NoInst == [sysid |-> -1]
 SysOf(r) == [id |-> r.id, tof |-> r.tof, nv |-> r.nv, numViews |-> r.numViews, minView |-> r.minView, minAx0 |-> r.minAx0,
              maxAx0 |-> r.maxAx0, maxSegData |-> r.maxSegData, bins |-> r.bins, rows |-> r.rows, cols |-> r.cols,
              ntcols |-> IF Has(r, "ntcols") THEN r.ntcols ELSE <<>>,
-             subkey |-> [b \in 1..Len(r.bins) |-> r.bins[b][2] - r.minView]]
+             subkey |-> [b \in 1..Len(r.bins) |-> r.bins[b][2] - r.minView], ntkey |-> <<>>]
 (* effective symmetries of the matrix under test: sw = <<90, 180, swap segment, swap s, shift z>> (0/1) *)
-SymCfg(s, sw) == [views |-> s.numViews, maxSeg |-> s.maxSegData, s90 |-> sw[1] = 1 /\ sw[2] = 1 /\ s.numViews % 4 = 0,
-                  s180 |-> sw[2] = 1 /\ s.numViews % 2 = 0, sseg |-> sw[3] = 1, minTof |-> 0, maxTof |-> 0]
-WithKeys(s, sw) == [s EXCEPT !.subkey = [b \in 1..Len(s.bins) |-> SS!FindBasicVS(SymCfg(s, sw), << s.bins[b][2], s.bins[b][1] >>)[1]]]
+(* "Disabling rotational symmetries / segment swapping / swap s symmetry for the projector with TOF data as this is      *)
+(* untested" (DataSymmetriesForBins_PET_CartesianGrid): for TOF data every view/segment pair is its own group.        *)
+SymCfg(s, sw, tof) == [views |-> s.numViews, maxSeg |-> s.maxSegData, s90 |-> ~tof /\ sw[1] = 1 /\ sw[2] = 1 /\ s.numViews % 4 = 0,
+                       s180 |-> ~tof /\ sw[2] = 1 /\ s.numViews % 2 = 0, sseg |-> ~tof /\ sw[3] = 1, minTof |-> 0, maxTof |-> 0]
+KeysFor(s, sw, tof) == [b \in 1..Len(s.bins) |-> SS!FindBasicVS(SymCfg(s, sw, tof), << s.bins[b][2], s.bins[b][1] >>)[1]]
+(* the subsets of the data: groups of the projectors the data are projected with; ntkey: the grouping of the non-TOF  *)
+(* clone of the back projector (which keeps all its symmetries)                                                        *)
+WithKeys(s, sw) == [s EXCEPT !.subkey = KeysFor(s, sw, s.tof), !.ntkey = KeysFor(s, sw, FALSE)]
 InstOf(r, s) == [sysid |-> r.sys, tof |-> r.tof, zero |-> r.zero, maxSeg |-> IF r.maxSegAsked = -1 THEN s.maxSegData ELSE r.maxSegAsked,
                  N |-> r.N, uss |-> r.uss, lam |-> r.lam, x |-> r.x, K |-> r.K, a |-> r.a, r |-> r.r, ef |-> r.ef, y |-> r.y,
                  tofSens |-> r.tofSensAsked, sw |-> r.sw]
@@ -53,11 +58,24 @@ NewVs(r) == IF r.e = "Value" /\ Has(r, "val") THEN (r.sub :> r.val) @@ vs ELSE v
 Explains(r) ==
   CASE r.e = "System" -> SystemOk(SysOf(r)) /\ r.ps = PS
     [] r.e = "Instance" -> ShapeOk(r, sys)
-    [] r.e = "SetUp" -> I # NoInst /\ RealInstanceOk(sys, I) /\ ~r.err /\ r.ok /\ r.maxSeg = I.maxSeg /\ r.tofSens = I.tofSens
+    \* (set_up may switch TOF sensitivities on - e.g. for TOF-only normalisation - but not off)
+    [] r.e = "SetUp" -> I # NoInst /\ RealInstanceOk(sys, I) /\ ~r.err /\ r.ok /\ r.maxSeg = I.maxSeg /\ (I.tofSens => r.tofSens)
     [] r.e \in Requests -> I # NoInst /\ ~r.err /\ ~r.pen
                            /\ IF r.e = "Value" THEN Has(r, "val") /\ ValueOk(r, NewVs(r)) ELSE ImageOk(r)
     [] r.e = "End" -> r.lines >= l - 1
     [] OTHER -> FALSE
+
+(* Known finding C05-tof-subsetsens: for TOF data WITHOUT TOF sensitivities the subset sensitivities are computed   *)
+(* with the non-TOF clone of the back projector, whose symmetries group the views differently from the TOF projectors *)
+(* (which use none): the reported "sensitivity of subset s" is the sensitivity of OTHER views than the ones value and *)
+(* gradient of subset s work on (e.g. 8 views, 4 subsets: subset 3 gets 0, subset 1 twice its share).  Signature: a   *)
+(* Sens / AddSens line of such an instance that is explained by the definition evaluated with the clone's grouping.   *)
+CloneSys == [sys EXCEPT !.cols = sys.ntcols, !.subkey = sys.ntkey]
+Classify(r) ==
+  IF I = NoInst \/ ~(r.e \in {"Sens", "AddSens"}) \/ r.err \/ ~Has(r, "out") THEN "new"
+  ELSE IF sys.tof /\ ~I.tofSens /\ I.uss /\ I.N > 1 /\ Len(r.out) = sys.nv /\ SubOk(r) /\ r.sub >= 0 /\ r.k = 12
+          /\ \A v \in 1..sys.nv : RealSensOk(CloneSys, I, m, r.sub, v, r.out[v], O0(r, v)) THEN "C05-tof-subsetsens"
+  ELSE "new"
 
 Init == l = 1 /\ sys = NoSys /\ I = NoInst /\ m = <<>> /\ vs = <<>> /\ bad = <<>>
 Next ==
@@ -66,13 +84,17 @@ Next ==
      /\ sys' = IF r.e = "System" THEN SysOf(r)
                ELSE IF r.e = "Instance" /\ ShapeOk(r, sys) THEN WithKeys(sys, r.sw) ELSE sys
      /\ I' = IF r.e = "Instance" THEN (IF ShapeOk(r, sys) THEN InstOf(r, sys) ELSE NoInst)
-             ELSE IF r.e = "System" THEN NoInst ELSE I
+             ELSE IF r.e = "System" THEN NoInst
+             ELSE IF r.e = "SetUp" /\ I # NoInst THEN [I EXCEPT !.tofSens = r.tofSens]
+             ELSE I
      /\ m' = IF r.e = "Instance" /\ ShapeOk(r, sys)
              THEN [ px |-> [b \in 1..NB(sys) |-> RowDot(sys.rows[b], r.x)],
                     used |-> [b \in 1..NB(sys) |-> UsedBin(sys, InstOf(r, sys), b)] ]
              ELSE m
      /\ vs' = IF r.e = "Instance" THEN <<>> ELSE IF I # NoInst THEN NewVs(r) ELSE vs
-     /\ bad' = IF Explains(r) THEN bad ELSE IF Len(bad) < 300 THEN Append(bad, << l, "new" >>) ELSE bad
+     /\ bad' = IF Explains(r) THEN bad
+               ELSE LET cls == Classify(r) IN
+                    IF Len(SelectSeq(bad, LAMBDA x : x[2] = cls)) < (IF cls = "new" THEN 300 ELSE 20) THEN Append(bad, << l, cls >>) ELSE bad
   /\ l' = l + 1
 Spec == Init /\ [][Next]_<<l, sys, I, m, vs, bad>>
 
